@@ -208,6 +208,23 @@ pub fn roundtrip(lm: &LMsg, key: Option<&Keyed>, rep: &mut Report) -> Option<Vec
             }
         }
     }
+    // 6b. attribute objects outlive the message: clones of the attributes of the encoded message in a message with another
+    //     transaction id encode to that message's reference bytes
+    {
+        let mut lm2 = lm.clone();
+        for b in lm2.tid.iter_mut() {
+            *b ^= 0xA5;
+        }
+        let msg2 = cu::reissue(&msg, lm2.tid);
+        let want2 = ref_encode(&lm2, key.map(|k| k.raw));
+        match cu::encode_into(&msg2, want2.len() + 16, 0x77) {
+            Ok(Ok((n, b))) if b[..n.min(b.len())] == want2[..] => {}
+            other => {
+                rep.violate("message-reissued-with-cloned-attributes-carries-wrong-bytes", format!("{:?}", other.map(|r| r.map(|x| x.0))), replay());
+                return None;
+            }
+        }
+    }
     // 7. the other encoder configurations (quick tier: one per message, chosen by a hash of the bytes; thorough: all):
     //    a reused encoder object and a default context give the same bytes; custom / random padding gives the same size
     //    and a message that decodes (and validates) to the same content
@@ -513,7 +530,7 @@ pub fn run(ctx: &RunCtx) -> i32 {
         Finish {
             level: "exploration",
             rule: format!(
-                "every message with 0..=2 body attributes over the {}-entry value menu in every order x 8 tails, every triple over the {}-entry menu x 2 tails, every header of the header menu on singles, full scalar sweeps (u16 fields, error codes 300..=699, 128x512 ICMP, string lengths 0..=509, blob lengths 0..=1024, all 16384 message types, XOR under 123 ids; as non-last and as last attribute: every blob length 0..=1030, every string length, a walking byte through every address byte of all 7 address attributes, every single-bit integer value and its complement, lists of every length 0..=8, UNKNOWN-ATTRIBUTES lists of every length up to 600 and of 1000 / 4096 / 16,384 / 32,760 entries, PASSWORD-ALGORITHMS lists of every length up to 200 and of 1000 / 4096 entries); deep messages without and with the full tail (every reduced-menu value at body offsets around 256 / 1024 / 4096 (thorough: 256..32768 in powers of two) behind one long filler and behind a run of 8-byte attributes, 3..=257 (thorough 1000) copies of 10 attributes, every rotation and reversal of one-value-per-kind, every 4-sequence over 9 kinds); the offset family (PRIORITY, and SOFTWARE + XOR-MAPPED-ADDRESS, behind a filler - one DATA blob or a run of 512-byte SOFTWARE attributes - at every 4-aligned body offset 0..=4200 (thorough 16,400), around every multiple of 4096 (thorough 1024) and at every offset 65,300..=65,532, without and with the full tail, bodies up to the 65,532-byte maximum); XOR-* addresses whose wire form is ::, ::1, ::ffff:a.b.c.d or all ones under 3 ids; the message obtained from the decoder is encoded again and must give the same bytes (messages without integrity / fingerprint attributes); every message is additionally encoded under another encoder configuration (one encoder object reused for all messages / default context: same bytes; custom padding 0xA5 / random padding: same size, decodes and validates to the same content; quick tier one configuration per message chosen by a hash of its bytes, thorough all four); a case is non-trivial when it was built, encoded, decoded and compared equal (index tuples are distinct by construction)",
+                "every message with 0..=2 body attributes over the {}-entry value menu in every order x 8 tails, every triple over the {}-entry menu x 2 tails, every header of the header menu on singles, full scalar sweeps (u16 fields, error codes 300..=699, 128x512 ICMP, string lengths 0..=509, blob lengths 0..=1024, all 16384 message types, XOR under 123 ids; as non-last and as last attribute: every blob length 0..=1030, every string length, a walking byte through every address byte of all 7 address attributes, every single-bit integer value and its complement, lists of every length 0..=8, UNKNOWN-ATTRIBUTES lists of every length up to 600 and of 1000 / 4096 / 16,384 / 32,760 entries, PASSWORD-ALGORITHMS lists of every length up to 200 and of 1000 / 4096 entries); deep messages without and with the full tail (every reduced-menu value at body offsets around 256 / 1024 / 4096 (thorough: 256..32768 in powers of two) behind one long filler and behind a run of 8-byte attributes, 3..=257 (thorough 1000) copies of 10 attributes, every rotation and reversal of one-value-per-kind, every 4-sequence over 9 kinds); the offset family (PRIORITY, and SOFTWARE + XOR-MAPPED-ADDRESS, behind a filler - one DATA blob or a run of 512-byte SOFTWARE attributes - at every 4-aligned body offset 0..=4200 (thorough 16,400), around every multiple of 4096 (thorough 1024) and at every offset 65,300..=65,532, without and with the full tail, bodies up to the 65,532-byte maximum); XOR-* addresses whose wire form is ::, ::1, ::ffff:a.b.c.d or all ones under 3 ids; clones of the attributes of the encoded message, re-issued under another transaction id, encode to that message's reference bytes; the message obtained from the decoder is encoded again and must give the same bytes (messages without integrity / fingerprint attributes); every message is additionally encoded under another encoder configuration (one encoder object reused for all messages / default context: same bytes; custom padding 0xA5 / random padding: same size, decodes and validates to the same content; quick tier one configuration per message chosen by a hash of its bytes, thorough all four); a case is non-trivial when it was built, encoded, decoded and compared equal (index tuples are distinct by construction)",
                 n_full, n_tri
             ),
             assumptions: vec![
